@@ -96,6 +96,33 @@ pub fn t_option_helpers(s: &str) -> Vec<String> {
     o
 }
 
+pub fn t_double_ended(s: &str) -> Vec<String> {
+    let mut it = s.chars().peekable();
+    let mut o = vec![];
+    if let Some(c) = it.peek() { o.push(c.to_string()); }
+    if let Some(c) = it.next_back() { o.push(c.to_string()); }
+    if let Some(c) = it.next() { o.push(c.to_string()); }
+    if let Some(c) = it.next_back() { o.push(c.to_string()); }
+    if let Some(c) = it.peek() { o.push(c.to_string()); }
+    if let Some(c) = it.next_back() { o.push(c.to_string()); }
+    o.push(it.collect::<String>());
+    let mut parts = s.split(',');
+    if let Some(p) = parts.next_back() { o.push(p.to_string()); }
+    o.push(parts.count().to_string());
+    o
+}
+pub fn t_nested_fn(s: &str) -> Vec<String> {
+    fn digits(part: &str) -> String { part.chars().filter(|c| c.is_ascii_digit()).collect() }
+    vec![digits(s), Wrapper::go(s)]
+}
+pub struct Wrapper;
+impl Wrapper {
+    pub fn go(s: &str) -> String {
+        fn inner(part: &str) -> String { part.to_uppercase() }
+        inner(s)
+    }
+}
+
 pub type TestFn = fn(&str) -> Vec<String>;
 pub const TESTS: &[(&str, TestFn)] = &[
     ("t_rsplit_once_char", t_rsplit_once_char), ("t_rsplit_once_str", t_rsplit_once_str), ("t_split_once_char", t_split_once_char), ("t_split_once_str", t_split_once_str),
@@ -107,5 +134,5 @@ pub const TESTS: &[(&str, TestFn)] = &[
     ("t_take_while", t_take_while), ("t_positions", t_positions), ("t_sum", t_sum), ("t_max_min", t_max_min), ("t_max_by_key", t_max_by_key), ("t_step_by", t_step_by), ("t_rev", t_rev),
     ("t_slice_starts", t_slice_starts), ("t_split_first", t_split_first), ("t_split_last", t_split_last), ("t_vec_ops", t_vec_ops), ("t_swap_remove", t_swap_remove), ("t_to_digit", t_to_digit),
     ("t_utf16", t_utf16), ("t_retain", t_retain), ("t_join", t_join), ("t_enumerate_filter", t_enumerate_filter), ("t_zip_chain", t_zip_chain), ("t_last_nth", t_last_nth), ("t_any_all", t_any_all),
-    ("t_fold", t_fold), ("t_sets_maps", t_sets_maps), ("t_option_helpers", t_option_helpers), ("t_uint_ops", t_uint_ops), ("t_local_closure", t_local_closure), ("t_string_ops", t_string_ops),
+    ("t_fold", t_fold), ("t_double_ended", t_double_ended), ("t_nested_fn", t_nested_fn), ("t_sets_maps", t_sets_maps), ("t_option_helpers", t_option_helpers), ("t_uint_ops", t_uint_ops), ("t_local_closure", t_local_closure), ("t_string_ops", t_string_ops),
 ];
